@@ -502,10 +502,12 @@ async fn one_datagram_based(fx: &Fx, c: &Conn, idx: usize) -> Result<Expect, Str
             }
         }
         // the session ends by its 1 s idle timeout: an idle timeout is recorded as an error
+        let last_io = Instant::now();
         tokio::time::sleep(Duration::from_millis(2500)).await;
         e.bytes = Some((sent, sent));
         e.terminal = "any";
-        e.ended_at = Instant::now();
+        // a lower bound of the real end (the history check reasons with "ended after ..."): not before the timeout
+        e.ended_at = last_io + Duration::from_secs(1);
         return Ok(e);
     }
     let ep = crate::tlsutil::quic_client("ca.crt", None);
@@ -782,7 +784,8 @@ pub async fn run_case(c: &Case) -> Result<(bool, serde_json::Value), Failure> {
         let oldest = hist.iter().filter_map(|h| h["source"].as_str().and_then(|s| end_of.get(s))).min();
         if let Some(oldest) = oldest {
             for e in &expects {
-                if e.ended_at > *oldest + Duration::from_millis(1500) && !in_hist.contains(&e.source.to_string()) {
+                // (a peer that never completed the TLS handshake need not have a record at all)
+                if e.kind != Kind::TlsHandshakeFails && e.ended_at > *oldest + Duration::from_millis(1500) && !in_hist.contains(&e.source.to_string()) {
                     return Err(Failure::new("history-not-most-recent", format!("{} ended well after the oldest history entry but is not in /api/history", e.source)));
                 }
             }
